@@ -165,7 +165,9 @@ def run_check(prop, tier, seed, timeout, verbose):
         failing_units.setdefault(ob.unit, []).append(ob)
     reported_native = set()
     for unit, obs in failing_units.items():
-        nat = native.get("targets", {}).get(unit) or native.get("targets", {}).get(unit.split("#")[0])
+        import re as _re
+        _t = native.get("targets", {})
+        nat = _t.get(unit) or _t.get(unit.split("#")[0]) or _t.get(_re.sub(r"@loop\d+", "", unit.split("#")[0]))
         fails = nat["failures"] if nat else []
         new_fails = []
         for f in fails:
